@@ -14,6 +14,8 @@
    (parsem: the same parse on a FRESH builder made with flatcc_builder_custom_init and an allocator that moves every block
     it grows - malloc of exactly the requested size, copy, free - so that any pointer into a builder stack kept across a
     growing operation is a heap-use-after-free for ASan; no reuse step; sizes rounded up to 8)
+   (parset: the same parse twice with 48 bytes of '0' digits resp. '}' behind the input, poisoned for instrumented code but visible to
+    uninstrumented libc code such as strtod: reply `T2 <core A> | <core B>`; the cores must be equal)
    reply:              OK <end_loc - start> <size> <verify rc> <fnv of buffer> [<buffer hex>]
                        ERR <rc> <ctx.error> <error_loc - start> <line> <pos> REUSE <0 same bytes as fresh builder | 1 differs | 2 build failed>
 */
@@ -82,6 +84,19 @@ static char *exact_copy(const char *hex, size_t *len, void **to_free)
     if (n == 0) { char *blk = (char *)malloc(8); *to_free = blk; free(tmp); *len = 0; return blk + 8; }
     p = (char *)malloc(n); memcpy(p, tmp, n); free(tmp); *to_free = p; *len = n; return p;
 }
+
+void __asan_unpoison_memory_region(void const volatile *addr, size_t size);
+/* copy followed by TAILN readable-by-libc bytes filled with `fill` and poisoned for instrumented code: uninstrumented libc code
+   (strtod) that runs past `end` then sees `fill`, so two runs with different fills give different results */
+#define TAILN 48
+static char *tail_copy(const char *hex, size_t *len, void **to_free, int fill)
+{
+    uint8_t *tmp; size_t n = hx_decode(hex, &tmp); char *p = (char *)malloc(n + TAILN);
+    memcpy(p, tmp, n); free(tmp); memset(p + n, fill, TAILN);
+    __asan_poison_memory_region(p + n, TAILN);
+    *to_free = p; *len = n; return p;
+}
+static void tail_free(void *p, size_t n) { __asan_unpoison_memory_region((char *)p + n, TAILN); free(p); }
 
 static void reply_ctx(const char *buf, const char *ret, flatcc_json_parser_t *ctx)
 {
@@ -163,6 +178,32 @@ int main(void)
         if (n == 0) { printf("BAD\n"); fflush(stdout); continue; }
         asan_hits = 0; asan_write = 0; ubsan_hits = 0;
         alarm(20);
+        if (!strcmp(t[0], "parset") && n == 6) {
+            /* the same parse twice on the shared builder, with digits / with a terminator behind the input:
+               T2 <core A> | <core B>   (core = OK end size vrc hash | ERR rc error loc) */
+            struct root *r = roots; int rc, k; flatcc_json_parser_flags_t flags = (flatcc_json_parser_flags_t)atoi(t[2]);
+            const char *fid = atoi(t[3]) ? "C4RT" : 0; static const int fills[2] = { '0', '}' };
+            while (r->name && strcmp(r->name, t[1])) ++r;
+            if (!r->name) { printf("BAD\n"); fflush(stdout); continue; }
+            printf("T2");
+            for (k = 0; k < 2; ++k) {
+                buf = tail_copy(t[5], &len, &fr, fills[k]);
+                flatcc_builder_reset(&B);
+                rc = r->parse(&B, &ctx, buf, len, flags, fid);
+                if (rc == 0) {
+                    size_t size = 0; void *out = flatcc_builder_finalize_aligned_buffer(&B, &size);
+                    if (!out) printf(" OK %ld 0 -1 0", (long)(ctx.end_loc - buf));
+                    else { printf(" OK %ld %lu 0 %016llx", (long)(ctx.end_loc - buf), (unsigned long)size, (unsigned long long)fnv64((uint8_t *)out, size)); flatcc_builder_aligned_free(out); }
+                } else printf(" ERR %d %d %ld", rc, ctx.error, (long)(ctx.error_loc - buf));
+                if (k == 0) printf(" |");
+                tail_free(fr, len);
+            }
+            if (asan_hits) printf(" ASAN %s", asan_msg);
+            UB_SUFFIX(); printf("\n");
+            alarm(0); fflush(stdout);
+            if (asan_write) return 99;
+            continue;
+        }
         if (!strcmp(t[0], "parsem") && n == 6) {
             struct root *r = roots; int rc; flatcc_json_parser_flags_t flags = (flatcc_json_parser_flags_t)atoi(t[2]);
             const char *fid = atoi(t[3]) ? "C4RT" : 0; flatcc_builder_t MB;
